@@ -761,7 +761,8 @@ MANIFEST = dict(
         "scheduled repairs written back to the right file before the flag is cleared; tolerance guards in "
         "comparison normal form against the documented 'by at most fix'; entry-point bindings; construction of "
         "the sos/eos rows independent of the transcript's first dimension; stripping after the last sos / before "
-        "the first eos. Necessary conditions of C12; the iff of acceptance over all directories is not decided."),
+        "the first eos (also as value tables: _load_ref and _write_hyp interpreted over sos / eos settings and 1-D / 2-D transcripts). "
+        "Necessary conditions of C12; the iff of acceptance over all directories is not decided."),
     level_note="Trusted: python ast; torch.save persists the tensor passed. F6 (_load_ref on empty transcripts) and "
                "F7 (--fix 0) were found by these rules and repaired by fix: commits.",
     technique="static analysis: typestate over enumerated CFG paths, guard dominance, comparison normal forms, reaching definitions, decision tables by abstract interpretation (per-token boundary block, fix normalisation, sos/eos insertion, CLI validate flag)",
